@@ -298,6 +298,25 @@ fn build(c: &Case) -> Built {
         reg("TYPEDEF_MEASUREMENT", format!("TM{pi}"), l0, &mut expected, &mut subjects);
         let l0 = push(&mut t, &format!("/begin TYPEDEF_CHARACTERISTIC TC{pi} \"\" VALUE RL 0 {convname} {ls} {hs} /end TYPEDEF_CHARACTERISTIC\n"));
         reg("TYPEDEF_CHARACTERISTIC", format!("TC{pi}"), l0, &mut expected, &mut subjects);
+        // the same elements with EXTENDED_LIMITS whose verdict is the opposite one (inside where the declared limits are outside,
+        // far outside where they are inside): the declared limits are what is checked
+        let decoy = if out { inside } else { place(elo, ehi, Place::BothOut) };
+        if let Some((dl, dh)) = decoy {
+            let (dls, dhs) = (flt(dl), flt(dh));
+            let l0 = push(&mut t, &format!("/begin CHARACTERISTIC CX{pi} \"\" VALUE 0x0 RL 0 {convname} {ls} {hs} EXTENDED_LIMITS {dls} {dhs} /end CHARACTERISTIC\n"));
+            reg("CHARACTERISTIC", format!("CX{pi}"), l0, &mut expected, &mut subjects);
+            let l0 = push(&mut t, &format!("/begin AXIS_PTS AX{pi} \"\" 0x0 NO_INPUT_QUANTITY RL 0 {convname} 4 {ls} {hs} EXTENDED_LIMITS {dls} {dhs} /end AXIS_PTS\n"));
+            reg("AXIS_PTS", format!("AX{pi}"), l0, &mut expected, &mut subjects);
+            let l0 = push(&mut t, &format!("/begin TYPEDEF_CHARACTERISTIC TCX{pi} \"\" VALUE RL 0 {convname} {ls} {hs} EXTENDED_LIMITS {dls} {dhs} /end TYPEDEF_CHARACTERISTIC\n"));
+            reg("TYPEDEF_CHARACTERISTIC", format!("TCX{pi}"), l0, &mut expected, &mut subjects);
+            if let Some((il, ih)) = inside {
+                let l0 = push(&mut t, &format!("/begin CHARACTERISTIC CAX{pi} \"\" CURVE 0x0 RL 0 {convname} {} {}\n", flt(il), flt(ih)));
+                subjects.insert(("CHARACTERISTIC".to_string(), format!("CAX{pi}"), l0));
+                let la = push(&mut t, &format!("/begin AXIS_DESCR STD_AXIS NO_INPUT_QUANTITY {convname} 4 {ls} {hs} EXTENDED_LIMITS {dls} {dhs} /end AXIS_DESCR\n"));
+                reg("AXIS_DESCR", format!("CAX{pi}"), la, &mut expected, &mut subjects);
+                push(&mut t, "/end CHARACTERISTIC\n");
+            }
+        }
         // standard axes 1..5: a CUBE_5 whose own limits are inside, each AXIS_DESCR on its own line
         if let Some((il, ih)) = inside {
             for (kind, prefix) in [("CHARACTERISTIC", "CA"), ("TYPEDEF_CHARACTERISTIC", "TCA")] {
